@@ -1350,7 +1350,7 @@ fn main() {
     };
     run.cov("lcm_zero_zero_observed", format!("lcm(0,0) is treated as out of domain (skipped, counted); the real code {lcm00}"));
     run.assume("lcm(0,0) and egcd(0,0,c) are outside the property's domain; signed minimum values are excluded as the property says");
-    run.assume("'intermediate values fit the type' is taken as 4*|c|*max(|a|,|b|) <= T::MAX for egcd and 4*max(m1,m2)^2 <= T::MAX for crt (true for every enumerated case unless counted under skipped_intermediates_may_not_fit_type), and 'the lcm itself fits' for lcm");
+    run.assume("'intermediate values fit the type' is taken as 4*max(|a|,1)*max(|b|,1)*max(|c|,1) <= T::MAX for egcd and 4*m1*m2*max(m1,m2) <= T::MAX for crt (not tailored to the crate's own recursion: any textbook solver's products fit) (true for every enumerated case unless counted under skipped_intermediates_may_not_fit_type), and 'the lcm itself fits' for lcm");
     run.assume("two builds are judged: the release profile of the workspace (overflow checks and debug assertions off, like a release build of rlib) and, as a second pass over the same enumeration, the dbg profile (same optimisation, debug assertions and integer overflow checks on, like `cargo test`): there an overflow or debug-assertion panic on an in-domain input is a violation (signature prefix dbg:)");
     run.assume(&format!(
         "'returns the answer' includes returning at all: a call of a few dozen arithmetic steps that is still running after {} on a thread that the observer sees making no progress does not terminate (observations are counted, not a clock read, so a stopped or starved process is not mistaken for one)",
